@@ -40,7 +40,8 @@ var cleanKeys = []int{1, 2, 4, 6, 7, 8}
 
 var partNumbers = []int{1, 2, 9, 10, 999, 1000, 1001, 9999, 10000}
 
-// part numbers outside the S3 range that the gateway accepts (finding 5)
+// part numbers outside the S3 range 1..10000: refused by the gateway since the repair of former finding 5
+// (before it only numbers above 100000 were)
 var oddPartNumbers = []int{0, 10001, 100000}
 
 // chunk sizes in bytes of the filer's HTTP write path (0 = the real autoChunk with -maxMB 1)
@@ -968,10 +969,11 @@ func genCase(r *hx.Rng) caseSpec {
 }
 
 // ---------- the deterministic first cases: witnesses of the known findings ----------
-// (cases 1, 5, 6, 7 and the completion of case 0 are witnesses of defects that have been
+// (cases 1, 5, 6, 7, 10 and the completion of case 0 are witnesses of defects that have been
 // repaired in /repo — numeric part order and explicit listing limit in completeMultipartUpload,
 // doDeleteEmptyDirectories skipping non-directories, CopyObject checking the source status,
-// CopyObjectPart checking the upload — and now pass; case 0 still exhibits the ListParts order)
+// CopyObjectPart checking the upload, part numbers outside 1..10000 refused — and now pass
+// (verdict 0); case 0 still exhibits the ListParts order)
 
 func witnesses() []caseSpec {
 	put := func(k int, seed uint64, size int) *op { return &op{kind: "Put", key: k, seed: seed, size: size} }
@@ -1006,9 +1008,10 @@ func witnesses() []caseSpec {
 		// 9: UploadPartCopy with a range that starts at the end of the source stores an empty part
 		{limit: 100000, kind: "witness-copy-range-at-end", ops: []*op{put(2, 91, 9), {kind: "MpCreate", key: 6}, part(0, 1, 92, 5),
 			{kind: "MpCopy", u: 0, n: 2, src: 2, hasR: true, ra: 9, rb: 12}, {kind: "MpList", u: 0}, complete(0, 1, 2), get(6)}},
-		// 10: part numbers 0 and 10001 are accepted; ListParts hides part 0, the object holds it
+		// 10: the witness of former finding 5 (parts 0 and 10001 were accepted, ListParts hid part 0, the object held it):
+		// both uploads must be refused now; the completion lists what a client then holds (part 1) and the object is part 1
 		{limit: 100000, kind: "witness-part-range", ops: []*op{{kind: "MpCreate", key: 6}, part(0, 0, 101, 5), part(0, 1, 102, 6), part(0, 10001, 103, 4),
-			{kind: "MpList", u: 0}, complete(0, 0, 1, 10001), get(6)}},
+			{kind: "MpList", u: 0}, complete(0, 1), get(6)}},
 		// 11: CompleteMultipartUpload with the part list [1, 3] of an upload holding 1, 2, 3: all three are assembled
 		{limit: 100000, kind: "witness-complete-list", ops: []*op{{kind: "MpCreate", key: 6}, part(0, 1, 111, 5), part(0, 2, 112, 6), part(0, 3, 113, 4),
 			complete(0, 1, 3), get(6)}},
@@ -1051,7 +1054,7 @@ func bigCase(r *hx.Rng) caseSpec {
 func main() {
 	out := hx.Flags("C28", 300)
 	out.Rule = "histories of S3 requests on one bucket through the real gateway router over a real in-process filer (leveldb2) with a loopback volume stand-in: " +
-		"first 13 deterministic witnesses of the known findings (k=0..6), of the repaired defects and of multi-chunk parts, then per case a filer chunk size from {1 MiB through the real autoChunk, 3, 5, 8, 16, 24 bytes through the hook VerifC28PutWithChunkSize around the real doPutAutoChunk} so that most bodies become 2..20 chunks, and one of: multipart (1-2 uploads over prefix-free keys, part numbers from {1,2,9,10,999,1000,1001,9999,10000} with a small per-case pool so that overwrites and the 10000 mix happen, in 1/8 of the cases also one of {0,10001,100000}, bodies 0..64 bytes, streaming-signed parts incl. a bad chunk signature, UploadPartCopy with ranges, ListParts, abort, CompleteMultipartUpload with a real <Part> list in the body (5/6: all parts the specification holds, ascending; else a subset, a swap, a never-uploaded number, a duplicate or an empty list), requests after completion; dirListLimit in {100000,1000,1..3}, saveToFilerLimit in {0,8,32,100}), " +
+		"first 13 deterministic witnesses of the known findings (k=0..4, 6), of the repaired defects (incl. former finding 5: part numbers 0 / 10001 must be refused) and of multi-chunk parts, then per case a filer chunk size from {1 MiB through the real autoChunk, 3, 5, 8, 16, 24 bytes through the hook VerifC28PutWithChunkSize around the real doPutAutoChunk} so that most bodies become 2..20 chunks, and one of: multipart (1-2 uploads over prefix-free keys, part numbers from {1,2,9,10,999,1000,1001,9999,10000} with a small per-case pool so that overwrites and the 10000 mix happen, in 1/8 of the cases also one of {0,10001,100000} (must be refused), bodies 0..64 bytes, streaming-signed parts incl. a bad chunk signature, UploadPartCopy with ranges, ListParts, abort, CompleteMultipartUpload with a real <Part> list in the body (5/6: all parts the specification holds, ascending; else a subset, a swap, a never-uploaded number, a duplicate or an empty list), requests after completion; dirListLimit in {100000,1000,1..3}, saveToFilerLimit in {0,8,32,100}), " +
 		"objects (PUT / streaming PUT / copy / GET with closed, open, suffix and unsatisfiable ranges / DELETE / batch delete (1/4 with a repeated key) over prefix-free keys), namespace (the same over keys that are path prefixes of each other: a, a/b, a/b/c, d, d/e, ab), case 13 of shard 0 and every 400th case a 1 MiB multi-chunk upload (a part of 1 MiB + tail = two 1 MiB filer chunks between two small parts, ranges across the chunk and part boundaries). " +
 		"non-trivial = some GET returned a non-empty body; distinct = canonical configuration + op list"
 	w := newWorld()
